@@ -37,7 +37,10 @@ def sel_norm(x):
 def parse(fn, spec):
     with warnings.catch_warnings():
         warnings.simplefilter("ignore")
-        return fn(copy.deepcopy(spec))
+        # in half of the cases the object parsed has been parsed before, when it held other content (the caller
+        # edited its own structure in place in between): a parse is a function of what the spec holds now
+        obj = SP.recycled(spec, fn) if len(repr(spec)) % 2 else None
+        return fn(obj if obj is not None else copy.deepcopy(spec))
 
 
 def eq_both(out, a, b, clause, tag, detail):
